@@ -282,6 +282,10 @@ def _gen_path(rng, d, name):
         adj.setdefault((l["f"], l["fo"]), []).append(((l["t"], l["to"]), l["ov"], l))
         from ..spec.grammar import cigar_complement
         adj.setdefault((l["t"], inv(l["to"])), []).append(((l["f"], inv(l["fo"])), cigar_complement(l["ov"]), l))
+    if d.segments and rng.random() < 0.12:
+        # a path of a single segment (it runs over no link)
+        s = rng.choice(d.segments)["name"]
+        return {"name": name, "segs": [(s, rng.choice("+-"))], "ovs": ["*"]}
     selfl = [l for l in d.links if l["f"] == l["t"] and l["fo"] == l["to"] and l["ov"] != "*"]
     if selfl and rng.random() < 0.35 and not _has_parallel(d):
         l = rng.choice(selfl)
